@@ -74,6 +74,22 @@ func IndexWalks(fn *ssa.Function) []*IndexWalk {
 						}
 					}
 					if !okInit {
+						// countdown form: n := len(s); n > 0; n-- with s[n-1]
+						if call, ok := init.(*ssa.Call); ok {
+							if b, ok := call.Call.Value.(*ssa.Builtin); ok && b.Name() == "len" {
+								okInit = true
+								cands = nil
+								for _, ref := range *phi.Referrers() {
+									if bo, ok := ref.(*ssa.BinOp); ok && bo.Op == token.SUB && bo.X == ssa.Value(phi) {
+										if k, isK := constInt(bo.Y); isK && k == 1 {
+											cands = append(cands, bo)
+										}
+									}
+								}
+							}
+						}
+					}
+					if !okInit {
 						dir = "?"
 					}
 				}
